@@ -64,6 +64,7 @@ func Attribute(m Mismatch, running string) string {
 type RunOpts struct {
 	Num, Depth int
 	Workers    int
+	Exhaustive bool // enumerate all behaviours of the configuration instead of sampling (narrow configurations only)
 	NoFocus    bool // all enabled templates compete in every block (for configurations with few templates)
 	Timeout    time.Duration
 	// Hook is called after every executed step (may be nil); it runs on the goroutine that owns sim.
@@ -92,11 +93,20 @@ func Run(c *vlib.Ctx, cfg LedgerConfig, o RunOpts) RunStats {
 		cfg.EmitDepth = o.Depth
 	}
 	cfg.Focus = !o.NoFocus
+	if o.Exhaustive {
+		cfg.EmitAll, cfg.EmitDepth, cfg.Focus, cfg.View = true, 0, false, false
+	}
 	st := RunStats{Tags: map[string]int{}, Foreign: map[string]int{}}
 	mod, files, cfgText := cfg.Render()
 	per := (o.Num + o.Workers - 1) / o.Workers
-	res, err := c.TLC(vlib.TLCOpts{SpecDirs: []string{"ledger"}, Module: mod, Files: files, ConfText: cfgText,
-		Simulate: fmt.Sprintf("num=%d", per), Depth: o.Depth, Seed: c.Seed, Workers: o.Workers, Timeout: o.Timeout, NoCount: true})
+	topts := vlib.TLCOpts{SpecDirs: []string{"ledger"}, Module: mod, Files: files, ConfText: cfgText,
+		Simulate: fmt.Sprintf("num=%d", per), Depth: o.Depth, Seed: c.Seed, Workers: o.Workers, Timeout: o.Timeout, NoCount: true}
+	if o.Exhaustive {
+		// every behaviour of the (narrow) configuration: the history is part of the state, so breadth-first
+		// search visits each distinct behaviour prefix once
+		topts.Simulate, topts.Depth, topts.Seed, topts.NoCount = "", 0, 0, false
+	}
+	res, err := c.TLC(topts)
 	if err != nil {
 		c.Fatal("ledger generation: %v", err)
 	}
